@@ -783,4 +783,31 @@ theorem bm_corrects_t2 (c : BchInst) (hok : bchOk c = true) (hd : 4 < c.delta) (
 
 
 
+/-- **the root search is exact for every error set** (any number of errors): if the coefficient list evaluates like the
+error-locator polynomial `∏_{l ∈ E} (1 + α^l x)` of a set `E` of positions below `n`, the search returns exactly the positions
+in `E`, in increasing order -/
+theorem locate_exact {c : BchInst} (f : OkFacts c) [Good c.P] (E : Finset Nat) (hE : ∀ l ∈ E, l < c.n) (sig : List Nat)
+    (hsig : ∀ x : Elt c.P, evalList c.P sig x.val = (∏ l ∈ E, (1 + alpha f ^ l * x)).val) :
+    locate c.P c.n sig = (List.range c.n).filter (fun j => decide (j ∈ E)) := by
+  have hnz := f.noZeroDivisors
+  have hchar : ∀ x : Elt c.P, x + x = 0 := add_self_elt
+  unfold locate
+  apply List.filter_congr
+  intro j hj
+  have hjn : j < c.n := List.mem_range.mp hj
+  rw [xAt_val f j, hsig]
+  have hz : (∏ l ∈ E, (1 + alpha f ^ l * xAt f j)).val = 0 ↔ ∏ l ∈ E, (1 + alpha f ^ l * xAt f j) = 0 :=
+    ⟨fun h => Subtype.ext h, fun h => by rw [h]; rfl⟩
+  have : ((∏ l ∈ E, (1 + alpha f ^ l * xAt f j)).val == 0) = decide (j ∈ E) := by
+    rw [Bool.eq_iff_iff, beq_iff_eq, decide_eq_true_iff, hz, Finset.prod_eq_zero_iff]
+    constructor
+    · rintro ⟨l, hl, h0⟩
+      rw [add_eq_zero_char2 hchar, eq_comm, root_iff f l j (hE l hl) hjn] at h0
+      rw [h0]; exact hl
+    · intro hjE
+      refine ⟨j, hjE, ?_⟩
+      rw [add_eq_zero_char2 hchar, eq_comm, root_iff f j j hjn hjn]
+  exact this
+
+
 end BMProofs
